@@ -658,23 +658,26 @@ def r04_6(chk: Check, P: "_Point"):
 
 
 def rules(chk: Check) -> None:
-    r04_12(chk)
+    chk.stage(r04_12, chk)
+    chk.stage(r04_5, chk)
     P = _Point(chk.src)
-    r04_3(chk, P)
-    r04_4(chk, P)
-    r04_5(chk)
-    r04_6(chk, P)
+    chk.stage(r04_3, chk, P)
+    chk.stage(r04_4, chk, P)
+    chk.stage(r04_6, chk, P)
     # the out-of-equilibrium stress components subtracted from c1, c2 are the direct moment expressions (shared with C13)
     from ..core import Remap
     from .c13 import r13_2
     # (the two caller-side clauses of r13_2 address locals of findPlasmaProfilePoint by their spelling; they are decided here by role instead)
-    r13_2(Remap(chk, {"R13.2": "R04.7"}, only=lambda rule, key, where: key not in ("pairing|c1c2", "call-args")))
+    chk.stage(r13_2, Remap(chk, {"R13.2": "R04.7"}, only=lambda rule, key, where: key not in ("pairing|c1c2", "call-args")))
     # R04.8: the field gradient that enters the kinetic term of the T33 equation is the z-derivative of the very profile whose values enter V and w
     # (shared with C09 R09.1);  R04.9: the Boltzmann solver boosts a deep copy, so the background whose profiles are reported stays in the wall frame
     # (shared with C12 R12.5)
     from . import c09, c12
-    c09.r09_12(Remap(chk, {"R09.1": "R04.8"}))
-    c12.r12_5(Remap(chk, {"R12.5": "R04.9"}))
+    chk.stage(c09.r09_12, Remap(chk, {"R09.1": "R04.8"}))
+    chk.stage(c12.r12_5, Remap(chk, {"R12.5": "R04.9"}))
+    # R04.10: the detonation / deflagration choice of the temperature root is never taken by comparing a plasma velocity with the Jouguet velocity
+    from .shared import jouguet_compared_with_wall_velocity
+    chk.stage(jouguet_compared_with_wall_velocity, chk, "R04.10")
     chk.floor("R04.8", 2)
     chk.floor("R04.9", 1)
     fp, cx = P.fp, P.cx
@@ -684,4 +687,20 @@ def rules(chk: Check) -> None:
     prm = _params(fp)
     ok = len(dc) == 1 and all(eqx(kwarg(dc[0], nm, i), prm[j], cx) for nm, i, j in (("index", 0, 0), ("fields", 1, 4), ("velocityMid", 2, 3), ("offEquilDeltas", 3, 6)))
     chk.ob("R04.7", fp.where(), "deltaToTmunu is called with (index, fields, velocityMid, offEquilDeltas)", ok, n(dc[0]) if dc else "", key="R13.2|call-args")
-    chk.floor("R04.7", 4)
+    # on every path: the stress subtracted from c1, c2 is that of the supplied Deltas (not a default that survives when some switch is off --
+    # the field equation uses the same Deltas unconditionally)
+    from ..flow import CFG as _CFG
+    g_ = _CFG(fp.node)
+    bad = []
+    for nm in {x.split("[")[0] for x in P.out}:
+        for q in g_.nodes:
+            if g_.kind.get(q) in ("def", "handler"):
+                continue
+            if not any(isinstance(x, ast.Name) and x.id == nm and isinstance(x.ctx, ast.Load) for x in ast.walk(q)):
+                continue
+            for d in g_.reaching_defs(q, nm):
+                if d is _CFG.ENTRY or not (isinstance(getattr(d, "value", None), ast.Call) and eqx(d.value.func, "self.deltaToTmunu")):
+                    bad.append(f"line {getattr(q, 'lineno', '?')}: `{nm}` may hold `{n(getattr(d, 'value', d)) if d is not _CFG.ENTRY else 'nothing'}`")
+    chk.ob("R04.7", fp.where(), "wherever the out-of-equilibrium T30 / T33 are used they are the result of deltaToTmunu on every path", not bad, "; ".join(sorted(set(bad)))[:300],
+           key="stress-on-every-path")
+    chk.floor("R04.7", 5)
